@@ -15,7 +15,7 @@ THEOREMS = [
     'Pfst.C17.match_self', 'Pfst.C17.match_one_leaf', 'Pfst.C17.match_same_structure',
     'Pfst.C17.match_pure', 'Pfst.C17.m_wrap_extends',
     'Pfst.C17.leaf_table_ok', 'Pfst.C17.leaf_table_nonempty', 'Pfst.C17.prefilter_sound',
-    'Pfst.C17.search_eq_filter', 'Pfst.C17.search_eq_filter_all',
+    'Pfst.C17.search_eq_filter', 'Pfst.C17.search_eq_filter_all', 'Pfst.C17.search_events', 'Pfst.C17.enter_events_are_walk',
     'Pfst.C17.list_regex_partial', 'Pfst.C17.list_regex_false_reentry',
 ]
 RULE = ('LIST: pattern sequences over {a, b, ..., M(t=...), M(t=a), MTAG(t)} x quantifier {*, +, ?, {1,2}} x greedy/non-greedy x '
@@ -24,6 +24,11 @@ RULE = ('LIST: pattern sequences over {a, b, ..., M(t=...), M(t=a), MTAG(t)} x q
         'tags, {m,n} up to 3, three tags) — each against ALL 364 element sequences over {a,b,c} of length <= 5, as FST '
         'and as pure AST targets; real result (accept/reject + every capture as index ranges) compared with the Lean '
         'model (must agree, the known re-entry defect included) and with re.fullmatch on the letter encoding (the property). '
+        'EVENTS: search(pattern, nested, on=, back=, scope=) for on in enter/leave/both x nested x back x scope, from the '
+        'module and from a nested def/class/lambda, with 13 tagged patterns whose verdict differs between a node and its '
+        'descendants, on nested list/call shapes, corpus programs and hard snippets: the event list (node, leaving, tags) '
+        'must equal the two-sided walk filtered by match() of each event\'s own node (pruned below matches when '
+        'nested=False); nested=True also compared with the model for the three on modes. '
         'PURITY: a structural dump of every pattern object and of the shared containers of fst.match is compared before '
         'and after the calls of every list / tree / search case; every anonymous tagging pattern (M with static tags '
         'only, MCB, MMAYBE, MNOT, MRE, MTAG, MOR/MAND over such) is shared with each of 16 wrapper shapes (M, M over M, '
@@ -217,6 +222,8 @@ def correspondence(ctx):
     _corr_list(ctx)
     import c17_tree
     c17_tree.correspondence(ctx)
+    import c17_events
+    c17_events.correspondence(ctx)
 
 
 def _corr_list(ctx):
@@ -372,6 +379,8 @@ def sweep(ctx):
     c17_tree.sweep(ctx)
     import c17_pure
     c17_pure.sweep(ctx)
+    import c17_events
+    c17_events.sweep(ctx)
 
 
 def search(ctx):
@@ -419,6 +428,9 @@ def replay(ctx, data):
         cls = _classify(w['ps'], w['xs'], r, L.re_oracle(w['ps'], w['xs']))
         if cls:
             ctx.fail('replay', f'{cls}: pfst gives {r}, regex {w.get("regex")}', w)
+    elif kind == 'events':
+        import c17_events
+        c17_events.replay(ctx, w)
     elif kind == 'purity':
         import c17_pure
         c17_pure.replay(ctx, w)
